@@ -38,7 +38,8 @@ theorem canon_of_parseSet (t : List Char) (s : NumSet.Set) (h : NumSet.parseSet 
 
 /-- what must hold of the client state at every moment -/
 structure GoodCS (cs : CS) : Prop where
-  nz : ∀ n ∈ cs.delivered, n ≠ 0
+  /-- every message number handed over is a non-zero 32-bit number -/
+  nz : ∀ n ∈ cs.delivered, n ≠ 0 ∧ n < NumSet.W
   all : ∀ u s, cs.sAll = some (u, s) → StaticSet s
   src : ∀ s, cs.src = some s → StaticSet s
   dst : ∀ s, cs.dst = some s → StaticSet s
@@ -433,7 +434,7 @@ theorem good_addToAll (cs : CS) (n : Nat) (h : GoodCS cs) (h0 : n ≠ 0) (hW : n
     rw [← he.2]
     exact static_addNum s0 n (h.all u s0 hall) h0 hW
 
-theorem good_delivered (cs : CS) (l : List Nat) (h : GoodCS cs) (hl : ∀ n ∈ l, n ≠ 0) (cs' : CS)
+theorem good_delivered (cs : CS) (l : List Nat) (h : GoodCS cs) (hl : ∀ n ∈ l, n ≠ 0 ∧ n < NumSet.W) (cs' : CS)
     (hd : cs'.delivered = cs.delivered ++ l) (ha : cs'.sAll = cs.sAll) (hs : cs'.src = cs.src) (ht : cs'.dst = cs.dst)
     (hdd : cs'.deliveredDepth ≤ maxListDepth) (hc : cs'.cur.bodyDepth = cs.cur.bodyDepth) :
     GoodCS cs' := by
@@ -600,8 +601,8 @@ theorem tr_sortLoop : ∀ fuel, Tr' (sortLoop true fuel) := by
     intro b
     split
     · exact tr_pure _ _ trivial
-    · refine tr_bind' tr_expectNumber' ?_
-      intro num
+    · refine tr_bind tr_expectNumber ?_
+      intro num hW
       split
       · exact tr_fail _
       · rename_i hz
@@ -610,10 +611,10 @@ theorem tr_sortLoop : ∀ fuel, Tr' (sortLoop true fuel) := by
         refine tr_bind' (tr_modifyCS _ ?_) (fun _ => ih)
         intro cs hcs
         split
-        · exact good_delivered cs [num] hcs (by intro k hk; simp at hk; rw [hk]; exact h0) _ rfl rfl rfl rfl hcs.dd rfl
+        · exact good_delivered cs [num] hcs (by intro k hk; simp at hk; rw [hk]; exact ⟨h0, hW⟩) _ rfl rfl rfl rfl hcs.dd rfl
         · exact hcs
 
-def TDok (t : TD) : Prop := ∀ n ∈ t.nums, n ≠ 0
+def TDok (t : TD) : Prop := ∀ n ∈ t.nums, n ≠ 0 ∧ n < NumSet.W
 
 /-- a thread (list) read at nesting level `dp`: no zero in it, and not deeper than the limit allows -/
 def TDat (dp : Nat) (t : TD) : Prop := TDok t ∧ t.depth + dp ≤ maxListDepth + 1
@@ -621,11 +622,12 @@ def TDat (dp : Nat) (t : TD) : Prop := TDok t ∧ t.depth + dp ≤ maxListDepth 
 theorem tr_threadItem (dp : Nat) (sub : P TD) (t : TD) (hs : Tr sub (TDat (dp + 1))) (ht : TDat dp t) :
     Tr (threadItem true sub t) (TDat dp) := by
   unfold threadItem
-  refine tr_bind' (p := (if !t.hasSub then number else pure none : P (Option Nat))) ?_ ?_
+  refine tr_bind (p := (if !t.hasSub then number else pure none : P (Option Nat)))
+    (Q := fun o => ∀ k, o = some k → k < NumSet.W) ?_ ?_
   · split
-    · exact tr_number
-    · exact tr_pure _ _ trivial
-  · intro o
+    · exact tr_numberBelow _
+    · exact tr_pure _ _ (by intro k hk; cases hk)
+  · intro o ho
     cases o with
     | some n =>
       simp only []
@@ -639,7 +641,7 @@ theorem tr_threadItem (dp : Nat) (sub : P TD) (t : TD) (hs : Tr sub (TDat (dp + 
         simp only [List.mem_append, List.mem_singleton] at hk
         cases hk with
         | inl h1 => exact ht.1 k h1
-        | inr h2 => rw [h2]; exact h0
+        | inr h2 => rw [h2]; exact ⟨h0, ho n rfl⟩
     | none =>
       simp only []
       refine tr_bind hs ?_
@@ -897,7 +899,7 @@ theorem handleMsg_delivered (seq : Nat) (cs : CS) : (handleMsg seq cs).delivered
   · rfl
   · split <;> (try split) <;> rfl
 
-theorem good_deliverMsg (seq : Nat) (h0 : seq ≠ 0) (cs : CS) (h : GoodCS cs) : GoodCS (deliverMsg seq cs) := by
+theorem good_deliverMsg (seq : Nat) (h0 : seq ≠ 0 ∧ seq < NumSet.W) (cs : CS) (h : GoodCS cs) : GoodCS (deliverMsg seq cs) := by
   unfold deliverMsg
   simp only []
   have hm := good_handleMsg seq cs h
@@ -950,7 +952,7 @@ theorem tr_fetchAtt (fuel dp seq : Nat) (hd : dp < maxListDepth) : Tr' (fetchAtt
     · exact good_same cs _ hcs rfl rfl rfl rfl rfl rfl
   tr_auto [tr_expectSP, tr_special, tr_flagLoop, tr_setCur_keep _ (fun _ => rfl), tr_expectNumber64, tr_expectNumber', tr_expectSpecial, tr_expectModSeq]
 
-theorem tr_handleFetch (fuel seq : Nat) : Tr' (handleFetch fuel {} seq) := by
+theorem tr_handleFetch (fuel seq : Nat) (hW : seq < NumSet.W) : Tr' (handleFetch fuel {} seq) := by
   unfold handleFetch
   split
   · exact tr_fail _
@@ -959,7 +961,7 @@ theorem tr_handleFetch (fuel seq : Nat) : Tr' (handleFetch fuel {} seq) := by
       intro e; apply hz; simp [e]
     refine tr_bind' (tr_modifyCS _ (fun cs hcs => ⟨hcs.nz, hcs.all, hcs.src, hcs.dst, hcs.dd, Nat.zero_le _⟩)) ?_
     intro _
-    refine tr_finally _ ?_ (good_deliverMsg seq h0)
+    refine tr_finally _ ?_ (good_deliverMsg seq ⟨h0, hW⟩)
     exact tr_expectList fuel 0 _ (by decide) (fun dp hdp => tr_fetchAtt fuel dp seq hdp)
 
 /-! ### status responses, dispatch, the read loop -/
@@ -1053,10 +1055,25 @@ theorem tr_readTagged (fuel : Nat) (tag typ : Bytes) : Tr' (readTagged fuel {} t
 
 theorem tr_readData (fuel : Nat) (typ0 : Bytes) : Tr' (readData fuel {} typ0) := by
   unfold readData
-  refine tr_bind' ?_ ?_
-  · tr_auto [tr_expectSP, tr_expectAtom]
-  · intro r
+  refine tr_bind (Q := fun r => r.1 < NumSet.W) ?_ ?_
+  · split
+    · split
+      · split
+        · rename_i hv
+          have hlt : valOfB typ0 < NumSet.W := by
+            simp only [Bool.and_eq_true, decide_eq_true_eq] at hv
+            exact hv.2
+          refine tr_bind' tr_expectSP ?_
+          intro _
+          refine tr_bind' tr_expectAtom ?_
+          intro t
+          exact tr_pure _ _ hlt
+        · exact tr_fail _
+      · exact tr_pure _ _ (by show 0 < NumSet.W; decide)
+    · exact tr_fail _
+  · intro r hnum
     obtain ⟨num, typ⟩ := r
+    simp only [] at hnum
     simp only []
     split
     · exact tr_respText fuel false
@@ -1073,10 +1090,10 @@ theorem tr_readData (fuel : Nat) (typ0 : Bytes) : Tr' (readData fuel {} typ0) :=
               refine tr_modifyCS _ ?_
               intro cs hcs
               split
-              · exact good_delivered cs [num] hcs (by intro k hk; simp at hk; rw [hk]; exact h0) _ rfl rfl rfl rfl hcs.dd rfl
-              · exact good_delivered cs [num] hcs (by intro k hk; simp at hk; rw [hk]; exact h0) _ rfl rfl rfl rfl hcs.dd rfl
+              · exact good_delivered cs [num] hcs (by intro k hk; simp at hk; rw [hk]; exact ⟨h0, hnum⟩) _ rfl rfl rfl rfl hcs.dd rfl
+              · exact good_delivered cs [num] hcs (by intro k hk; simp at hk; rw [hk]; exact ⟨h0, hnum⟩) _ rfl rfl rfl rfl hcs.dd rfl
           · split
-            · exact tr_bind' tr_expectSP (fun _ => tr_handleFetch fuel num)
+            · exact tr_bind' tr_expectSP (fun _ => tr_handleFetch fuel num hnum)
             · split
               · exact tr_searchLoop fuel
               · split
